@@ -213,21 +213,26 @@ def leg_D(res, r, tier):
         body = ''.join(r.choice(pieces) for _ in range(r.randint(0, 7)))
         texts.append((r.choice(QUOTES), body, i % 3 != 0))
     nB = 0
-    for quote, body, exact in texts:
-        text = quote + body + quote
+    for k, (quote, body, exact) in enumerate(texts):
+        isb = k % 4 == 3          # a quarter of the texts are read as bytes literals (decb)
+        if isb and (B + 'u' in body or B + 'U' in body):
+            exact = False         # not escapes in a bytes literal: kept verbatim by CPython, not covered by decb
+        text = ('b' if isb else '') + quote + body + quote
         if '\0' in text:
             continue
         try:
             with warnings.catch_warnings():
                 warnings.simplefilter('ignore')
                 tree = ast.parse(text, mode='eval')
-            val = tree.body.value if isinstance(tree.body, ast.Constant) and isinstance(tree.body.value, str) else None
+            val = tree.body.value if isinstance(tree.body, ast.Constant) and isinstance(tree.body.value, bytes if isb else str) else None
+            if isb and val is not None:
+                val = val.decode('latin-1')
             # implicit concatenation ('a''b') is several literals, not one
             if sum(1 for t in tokenize.generate_tokens(io.StringIO(text).readline) if t.type == tokenize.STRING) != 1:
                 val = None
         except (SyntaxError, ValueError, tokenize.TokenError):
             val = None
-        call = 'dec %s %d%%N DNorm %s' % ('true' if len(quote) == 3 else 'false', ord(quote[0]), common.coq_N_list(body + quote))
+        call = '%s %s %d%%N DNorm %s' % ('decb' if isb else 'dec', 'true' if len(quote) == 3 else 'false', ord(quote[0]), common.coq_N_list(body + quote))
         if val is not None:
             cases.append('match %s with Some (d, []) => text_eqb d %s | _ => %s end' % (call, common.coq_N_list(val), 'false' if exact else 'true'))
         else:
